@@ -219,7 +219,9 @@ type Reply struct {
 	Total       *int32 // paging total
 	Metadata    *schema.V
 	Batch       []*BatchEntry
-	Status      int // overridden response status (0 = leave)
+	Status      int         // overridden response status (0 = leave)
+	NilResult   bool        // return a typed nil result and a nil error
+	Panic       interface{} // panic with this value inside the resource method
 }
 
 func structField(rv reflect.Value, name string) reflect.Value {
@@ -419,8 +421,14 @@ func (w *World) mockOuts(c *Call, r *Reply, outs []reflect.Type, ctxStatus func(
 	for j, o := range outs {
 		res[j] = reflect.Zero(o)
 	}
+	if r.Panic != nil {
+		panic(r.Panic)
+	}
 	if r.Err != nil {
 		res[len(res)-1] = errValue(r.Err)
+		return res
+	}
+	if r.NilResult {
 		return res
 	}
 	if r.Status != 0 && ctxStatus != nil {
